@@ -844,7 +844,7 @@ def normalize_sched(sched, backend):
 def sched_to_job(s, backend, instances, jid):
     reqs = [{"op": q["op"], "argk": sh["argk"], "lvl": q["lvl"]} for q, sh in zip(s["reqs"], s["shapes"])]
     return {"id": jid, "mode": "model", "backend": backend, "instances": instances, "cfg": {"days": 14, "versions": 100},
-            "seed": CONC_SEEDS[seed_name_of(s["seed"])], "reqs": reqs, "sched": normalize_sched([[e[0], e[1]] for e in s["sched"]], backend),
+            "seedname": seed_name_of(s["seed"]), "seed": CONC_SEEDS[seed_name_of(s["seed"])], "reqs": reqs, "sched": normalize_sched([[e[0], e[1]] for e in s["sched"]], backend),
             "model_resps": [r["kind"] for r in s["resps"]]}
 
 
@@ -873,6 +873,64 @@ def run_conc_jobs(binary, jobs, wd, nproc=None):
             tot += r["rounds"]
             perjob += r["jobs"]
     return [t[1] for t in todo], tot, perjob
+
+
+def storage_conformance(files, jobs, wd):
+    """Replay the recorded storage calls of every fault-free round as actions of spec/SyncStorage.tla (conformance style,
+    spec/TraceStorage.tla).  Returns (stats, notes); a round the model cannot follow is a divergence (NOTE), not a verdict."""
+    jb = {j["id"]: j for j in jobs}
+    groups = collections.defaultdict(list)
+    nr = 0
+    for f in files:
+        for line in open(f):
+            e = json.loads(line)
+            j = jb.get(e.get("job"))
+            if not j or e.get("faulted") or not j.get("seedname") or any("argk" not in q for q in j["reqs"]) or e.get("timeouts"):
+                continue
+            key = (e["backend"], len(e["reqs"]))
+            g = groups[key]
+            g.append({"t": "start", "run": e["run"], "seedname": j["seedname"], "shapes": [{"op": q["op"], "argk": q["argk"], "lvl": q["lvl"]} for q in j["reqs"]]})
+            for r, call in e["log"]:
+                g.append({"t": "call", "run": e["run"], "r": r, "call": call})
+            g.append({"t": "end", "run": e["run"], "kinds": [x["kind"] for x in e["resps"]], "final": e["final"]})
+            nr += 1
+    stats = dict(rounds_replayed=nr, not_conforming=0, groups=[])
+    notes = []
+    from concurrent.futures import ThreadPoolExecutor
+
+    def one(item):
+        (backend, nreq), evs = item
+        tf = os.path.join(wd, f"storage-{backend}-{nreq}.ndjson")
+        with open(tf, "w") as w:
+            for e in evs:
+                w.write(json.dumps(e) + "\n")
+        cfg = write_cfg(f"tstorage_{os.getpid()}_{backend}_{nreq}.cfg", f"""SPECIFICATION TSpec
+CONSTANTS
+  Backend = "{backend}"
+  CreateChecks = TRUE
+  NReq = {nreq}
+  ReqChoices <- OneShape
+  Seeds <- OneSeed
+  FaultBudget = 0
+  CrashOn = FALSE
+  SnapDays = 14
+  SnapVersions = 100
+INVARIANTS Track
+POSTCONDITION Accepted
+CHECK_DEADLOCK FALSE
+""")
+        out = tlc("TraceStorage.tla", cfg, workers=1, timeout=1800, env={"TRACE": tf}, heap="3g", java_opts="-Xss1g", gc="-XX:+UseSerialGC")
+        m = re.search(r'<<"STORAGERESULT", (\d+), (\d+)>>', out)
+        bad = [l for l in out.splitlines() if l.startswith('<<"NOCONF"')]
+        if not m or int(m.group(1)) != int(m.group(2)) + 1:
+            raise ToolError(f"TraceStorage did not consume {tf}: " + out[-1500:])
+        return (backend, nreq, len(evs), bad)
+    with ThreadPoolExecutor(max_workers=4) as ex:
+        for backend, nreq, n, bad in ex.map(one, list(groups.items())):
+            stats["groups"].append(dict(backend=backend, requests=nreq, events=n, not_conforming=len(bad)))
+            stats["not_conforming"] += len(bad)
+            notes += [f"storage-model conformance ({backend}, {nreq} requests): " + b[:300] for b in bad[:3]]
+    return stats, notes
 
 
 def conc_collect(pid, viols, extra_sig=None, jobs=None):
@@ -918,6 +976,17 @@ def engine_conc(pid, tier, evidence=True, focus=None):
         k = (150 if tier == "quick" else 1500) if not only_av else 40
         for s in rng.sample(scheds, min(k, len(scheds))):
             scheds_all.append((backend, s))
+    if tier == "thorough" and focus is None:
+        # every request terminates and the lock is always released again (weak fairness, no state constraint)
+        for backend in ("sqlite", "inmemory"):
+            cfg = write_cfg(f"conc_live_{os.getpid()}_{backend}.cfg", conc_cfg_text(backend, True, 2, "ShapesAV", "SeedsNew", faults=0,
+                            invariants="MutualExclusion", emit=False).replace("SPECIFICATION Spec", "SPECIFICATION FairSpec")
+                            .replace("CHECK_DEADLOCK FALSE", "PROPERTIES Live_Done Live_LockFree\nCHECK_DEADLOCK FALSE"))
+            out = tlc("MC_Conc.tla", cfg, workers=8, timeout=2400)
+            if not tlc_ok(out):
+                raise ToolError("TLC reports an error on the liveness model:\n" + ("\n".join(tlc_error_summary(out)) or out[-3000:]))
+            st = tlc_stats(out)
+            model_runs.append(dict(backend=backend, liveness=["Live_Done", "Live_LockFree"], states=st["distinct"], transitions=st["generated"]))
     jobs = []
     for i, (backend, s) in enumerate(scheds_all):
         inst = "multi" if (backend == "sqlite" and i % 2) else "shared"
@@ -940,15 +1009,16 @@ def engine_conc(pid, tier, evidence=True, focus=None):
                 k += 1
                 lvl = "lib" if (k % 5 == 0 and sd != "Seed0") else "http"
                 jobs.append({"id": f"d{k}", "mode": "dfs", "backend": backend, "instances": inst, "cfg": {"days": 14, "versions": 100},
-                             "seed": CONC_SEEDS[sd], "reqs": [{"op": a[0], "argk": a[1], "lvl": lvl}, {"op": b[0], "argk": b[1], "lvl": lvl}],
+                             "seedname": sd, "seed": CONC_SEEDS[sd], "reqs": [{"op": a[0], "argk": a[1], "lvl": lvl}, {"op": b[0], "argk": b[1], "lvl": lvl}],
                              "max_rounds": maxr if not (a[0] == b[0] == "AddVersion" and sd == "Seed0") else max(maxr, 250)})
     # ---- (3) seeded random schedules for triples
     ntr = 0 if only_av else (40 if tier == "quick" else 400)
     for i in range(ntr):
         tr = [rng.choice(shapes) for _ in range(3)]
         backend, inst = rng.choice(targets)
+        sdn = rng.choice(seeds)
         jobs.append({"id": f"r{i}", "mode": "random", "backend": backend, "instances": inst, "cfg": {"days": 14, "versions": 100},
-                     "seed": CONC_SEEDS[rng.choice(seeds)], "reqs": [{"op": o, "argk": a, "lvl": "http"} for o, a in tr],
+                     "seedname": sdn, "seed": CONC_SEEDS[sdn], "reqs": [{"op": o, "argk": a, "lvl": "http"} for o, a in tr],
                      "rounds": 6, "rseed": rng.randint(1, 2**31)})
     t1 = time.time()
     files, nrounds, perjob = run_conc_jobs(binary, jobs, wd)
@@ -957,6 +1027,7 @@ def engine_conc(pid, tier, evidence=True, focus=None):
     t3 = time.time()
     log(f"[conc] tlc {t1-t0:.1f}s harness {t2-t1:.1f}s judge {t3-t2:.1f}s rounds {total}")
     found = conc_collect(pid, viols, jobs=jobs)
+    sconf, snotes = (storage_conformance(files, jobs, wd) if focus is None else (None, []))
     two_inst = None
     if focus is None and pid == "C03":
         # "through several server instances": requests one after the other, alternating between two server
@@ -998,7 +1069,7 @@ def engine_conc(pid, tier, evidence=True, focus=None):
     coverage = dict(states=states, transitions=transitions, traces_validated_against_impl=total, samples=samples,
                     model_runs=model_runs, dfs_jobs=sum(1 for j in jobs if j["mode"] == "dfs"), model_schedule_rounds=len(scheds_all),
                     random_jobs=ntr, dfs_jobs_hitting_round_cap=len(incomplete), predicate_failures_all_properties=dict(per_name),
-                    two_instance_sequential=two_inst,
+                    two_instance_sequential=two_inst, storage_model_conformance=sconf,
                     rule="TLC explores every interleaving of 2-3 request programs at storage-call granularity (SyncStorage, both backend semantics) and "
                          "checks linearizability; a sample of its terminal schedules, a bounded-exhaustive gate-level exploration of all request pairs "
                          "and seeded random triples are executed on the real code under the controlled scheduler; TLC judges each recorded round "
@@ -1006,7 +1077,7 @@ def engine_conc(pid, tier, evidence=True, focus=None):
     assumptions = ["requests run on one OS thread each inside one process; two SqliteStorage objects on one directory stand for several server instances",
                    "a request blocked in txn() is recognised by a grace period (8/25 ms); timing never decides a verdict",
                    "an HTTP AddVersion for an unknown client may linearize as two units (create the empty client, then add)"]
-    rc = report(pid, tier, "model_checking", found, coverage, assumptions, t0)
+    rc = report(pid, tier, "model_checking", found, coverage, assumptions, t0, snotes)
     shutil.rmtree(wd, ignore_errors=True)
     return rc
 
